@@ -358,6 +358,8 @@ impl GenericHardwareSource {
             related_source_id: 0xffff.into(),
             _flags: 0,
             enabled: enabled as u8,
+            // a notification structure is 28 bytes long even before it is configured
+            notification: NotificationStructure::new(NotificationType::Polled),
             ..Default::default()
         }
     }
@@ -576,6 +578,8 @@ impl GenericHardwareSourceV2 {
             related_source_id: 0xffff.into(),
             _flags: 0,
             enabled: enabled as u8,
+            // a notification structure is 28 bytes long even before it is configured
+            notification: NotificationStructure::new(NotificationType::Polled),
             ..Default::default()
         }
     }
